@@ -45,6 +45,14 @@ def graph(ctx, p):
         Cl.add_edges_from(itertools.combinations(sorted(e), 2))
     with warnings.catch_warnings():
         warnings.simplefilter("ignore")
+        try:
+            _graph_body(ctx, what, H, nl, el, N, M, E, comps, Cl)
+        except Exception as ex:
+            ctx.require(False, f"{what}: raised {type(ex).__name__} on an admissible input")
+
+
+def _graph_body(ctx, what, H, nl, el, N, M, E, comps, Cl):
+    if True:
         if what == "components":
             got = [frozenset(_idx(nl, x) for x in comp) for comp in xgi.connected_components(H)]
             ctx.require(len(got) == len(comps) and set(got) == set(comps), "connected components differ from the components of the node-edge bipartite graph")
